@@ -1,10 +1,15 @@
 package main
 
 import (
+	"context"
 	"fmt"
 	"math/rand"
 	"os"
+	"sync"
+	"sync/atomic"
 	"time"
+
+	"github.com/fullstorydev/emulators/storage/gcsutil"
 )
 
 // POp is one call of a goroutine's program.
@@ -249,8 +254,97 @@ func genC19(out, tier string, rng *rand.Rand) {
 	}
 	extra["random_schedules"] = nr
 	extra["random_s"] = time.Since(t2).Seconds()
+
+	// (4) free-running stress (the yield points let unregistered goroutines straight through): the
+	// cooperative schedules only interleave at the yield points; windows between them are exercised
+	// here, judged by the property itself (at most one holder per key, Lock's verdict truthful, no
+	// panic on a held key's Unlock, no entry left behind)
+	t3 := time.Now()
+	dur := 1500 * time.Millisecond
+	if tier == "thorough" {
+		dur = 12 * time.Second
+	}
+	notes, ops := lockStress(dur, rng.Int63())
+	{
+		r := NewRunner([][]POp{lockUnlock(0)}, false)
+		r.Drain()
+		c := r.Finish("stress")
+		if len(c.Obs) > 0 {
+			c.Obs[len(c.Obs)-1].Notes = append(c.Obs[len(c.Obs)-1].Notes, notes...)
+		}
+		sink.Add(c)
+	}
+	extra["stress_lock_calls"] = ops
+	extra["stress_s"] = time.Since(t3).Seconds()
 	extra["total_s"] = time.Since(t0).Seconds()
 	sink.Close("a schedule counts as non-trivial when some action was observed blocked, some Lock returned false or some call panicked", false)
 	fmt.Fprintf(os.Stderr, "C19: %d schedules (%d distinct, %d non-trivial), %d actions, %.1fs\n",
 		sink.stats.Evaluations, sink.stats.Distinct, sink.stats.Nontrivial, sink.stats.Requests, time.Since(t0).Seconds())
+}
+
+// lockStress hammers one fresh lock map from many goroutines with short-lived, already-cancelled and
+// generous contexts on two keys and reports what the property forbids.
+func lockStress(d time.Duration, seed int64) ([]string, int64) {
+	m := gcsutil.NewTransientLockMap()
+	var holders [2]int32
+	var calls int64
+	var mu sync.Mutex
+	var notes []string
+	note := func(f string, a ...interface{}) {
+		mu.Lock()
+		if len(notes) < 5 {
+			notes = append(notes, "stress: "+fmt.Sprintf(f, a...))
+		}
+		mu.Unlock()
+	}
+	stop := time.Now().Add(d)
+	var wg sync.WaitGroup
+	for g := 0; g < 12; g++ {
+		wg.Add(1)
+		go func(g int) {
+			defer wg.Done()
+			rng := rand.New(rand.NewSource(seed + int64(g)))
+			for time.Now().Before(stop) {
+				k := rng.Intn(2)
+				key := fmt.Sprintf("k%d", k)
+				// every context ends by itself after 20 ms at the latest, so that a map that leaks a lock
+				// cannot make this loop wait for ever
+				ctx, cancel := context.WithTimeout(context.Background(), 20*time.Millisecond)
+				switch rng.Intn(4) {
+				case 0:
+					cancel() // already cancelled: Lock must say false and hold nothing
+				case 1:
+					go func() { time.Sleep(time.Duration(rng.Intn(200)) * time.Microsecond); cancel() }()
+				}
+				atomic.AddInt64(&calls, 1)
+				ok := m.Lock(ctx, key)
+				if !ok && ctx.Err() == nil {
+					note("Lock(%q) returned false although its context had not ended", key)
+				}
+				if ok {
+					if n := atomic.AddInt32(&holders[k], 1); n != 1 {
+						note("%d callers hold key %q at the same time", n, key)
+					}
+					if rng.Intn(2) == 0 {
+						time.Sleep(time.Duration(rng.Intn(50)) * time.Microsecond)
+					}
+					atomic.AddInt32(&holders[k], -1)
+					func() {
+						defer func() {
+							if p := recover(); p != nil {
+								note("Unlock of the held key %q panicked: %v", key, p)
+							}
+						}()
+						m.Unlock(key)
+					}()
+				}
+				cancel()
+			}
+		}(g)
+	}
+	wg.Wait()
+	if n := m.VerifLen(); n != 0 {
+		note("%d entries left in the map after every caller has finished", n)
+	}
+	return notes, atomic.LoadInt64(&calls)
 }
